@@ -1,6 +1,7 @@
 (* C06 -- discovered graph is well-formed; bad requests are rejected. *)
 From Coq Require Import List Arith ZArith QArith String Bool Permutation.
 From CE Require Import Model.Lagged Model.Dispatch Model.Discover Model.Selection Proofs.DiscoverProofs.
+From CE Require Import Model.ShuffleTest Model.Pipeline Proofs.PipelineProofs.
 Local Open Scope nat_scope.
 
 (* every graph the model emits is well-formed, whatever the selection oracle returns (as long as it
@@ -43,3 +44,122 @@ Theorem C06_validation : forall methods infos m i T L,
   (mem m methods = true -> mem i infos = true -> L + 2 < T -> validate methods infos m i T L = Ok).
 Proof. exact validate_spec. Qed.
 Print Assumptions C06_validation.
+
+(* ====== end-to-end model of discover_network (Model/Pipeline.v) ===========================================
+   discover_model composes Lagged.feature, Selection.ocse, ShuffleTest.shuffle_model, Dispatch.floor0 and
+   Discover.discover_edges; its only external inputs are the estimator oracle [cmi] and the surrogate oracle
+   [sur] on abstract (variable, lag) column identities, and the visiting order of backward().
+   alpha_forward = aF/bF, alpha_backward = aB/bB, estimator values in units of 1/scale.                       *)
+
+(* (i) every graph the end-to-end model emits is well-formed: for every n, max_lag, every oracle pair, both
+   variants, both significance levels, every visiting order that enumerates the forward set *)
+Theorem C06_pipeline_graph_wellformed : forall n L scale aF bF aB bB cmi sur vr order,
+  0 < L ->
+  (forall i, Permutation (order i) (fwd (info L cmi i) (gF L aF bF cmi sur i) (init_of L vr i) vr (n * L))) ->
+  forall nsh, (forall i x zs, (Z.of_nat (List.length (sur i x zs)) <= nsh)%Z) ->
+  wf_graph n L nsh (discover_model n L scale aF bF aB bB cmi sur vr order) = true.
+Proof. exact pipeline_wf. Qed.
+Print Assumptions C06_pipeline_graph_wellformed.
+
+(* (ii) CHARACTERISATION: an edge u -> w at lag tau is in the graph iff column (u, tau) is among the parents
+   selected for w ... *)
+Theorem C06_pipeline_edge_iff_selected : forall n L scale aF bF aB bB cmi sur vr order,
+  0 < L ->
+  (forall i, Permutation (order i) (fwd (info L cmi i) (gF L aF bF cmi sur i) (init_of L vr i) vr (n * L))) ->
+  forall u w tau,
+  (exists e, In e (discover_model n L scale aF bF aB bB cmi sur vr order) /\ e_src e = u /\ e_dst e = w /\ e_lag e = tau)
+  <-> (u < n /\ w < n /\ 1 <= tau <= L /\ In (feature_index L u tau) (parents n L aF bF aB bB cmi sur vr order w)).
+Proof. exact edge_iff. Qed.
+Print Assumptions C06_pipeline_edge_iff_selected.
+
+(* ... and that parent set is a result the relational oCSE rule of C02 allows (via C02's `model follows the
+   rule` theorem) on the landscape  j, Zs |-> max(0, cmi w (label j) (labels Zs))  with the verdicts
+   "value > (1-alpha)-percentile of the floored surrogates of that query": edge presence is a statement about
+   the two oracles on abstract column sets only *)
+Theorem C06_pipeline_selected_follow_ocse_rule : forall n L aF bF aB bB cmi sur vr order,
+  (forall i, Permutation (order i) (fwd (info L cmi i) (gF L aF bF cmi sur i) (init_of L vr i) vr (n * L))) ->
+  forall w,
+  ocse_spec (fun j Zs => Z.max 0 (cmi w (feature L j) (map (feature L) Zs)))
+            (fun j Zs => r_pass (shuffle_model aF bF (Z.max 0 (cmi w (feature L j) (map (feature L) Zs)))
+                                               (map (Z.max 0) (sur w (feature L j) (map (feature L) Zs)))))
+            (fun j Zs => r_pass (shuffle_model aB bB (Z.max 0 (cmi w (feature L j) (map (feature L) Zs)))
+                                               (map (Z.max 0) (sur w (feature L j) (map (feature L) Zs)))))
+            (match vr with Standard => map (feature_index L w) (seq 1 L) | Alternative => nil end)
+            vr (n * L) (parents n L aF bF aB bB cmi sur vr order w).
+Proof. exact parents_follow_rule. Qed.
+Print Assumptions C06_pipeline_selected_follow_ocse_rule.
+
+(* (iii) the attributes of an edge u -> w at lag tau: cmi = floor0 of the oracle value for X = column (u, tau),
+   Y = w now, Z = exactly the other selected parents of w (the C01 meaning of an edge); the p-value numerator is the
+   number of that query's surrogates whose (floored) value is >= the (floored) observed value *)
+Theorem C06_pipeline_edge_attributes : forall n L scale aF bF aB bB cmi sur vr order,
+  0 < L -> forall e, In e (discover_model n L scale aF bF aB bB cmi sur vr order) ->
+  let w := e_dst e in let c := feature_index L (e_src e) (e_lag e) in
+  let zs := map (feature L) (others (parents n L aF bF aB bB cmi sur vr order w) c) in
+  In c (parents n L aF bF aB bB cmi sur vr order w) /\
+  (forall k, In k (others (parents n L aF bF aB bB cmi sur vr order w) c)
+             <-> In k (parents n L aF bF aB bB cmi sur vr order w) /\ k <> c) /\
+  e_cmi e = floor0 (Fin (cmi w (e_src e, e_lag e) zs # scale)) /\
+  e_count e = count_ge (Z.max 0 (cmi w (e_src e, e_lag e) zs)) (map (Z.max 0) (sur w (e_src e, e_lag e) zs)).
+Proof. exact edge_attributes. Qed.
+Print Assumptions C06_pipeline_edge_attributes.
+
+(* on any series those abstract columns are the (X, Y, Z) triple of C01 (Lagged.edge_triple) *)
+Theorem C06_pipeline_edge_query_is_C01_triple : forall n L aF bF aB bB cmi sur vr order (V : Type) (d : V) (s : series) w c,
+  edge_triple d s L w (parents n L aF bF aB bB cmi sur vr order w) c
+  = (x_lagged_col d s L c, y_col d s L w, map (x_lagged_col d s L) (others (parents n L aF bF aB bB cmi sur vr order w) c)).
+Proof. exact edge_query_is_edge_triple. Qed.
+Print Assumptions C06_pipeline_edge_query_is_C01_triple.
+
+(* (iv) targets are independent: the edges into w only depend on the oracles restricted to target w *)
+Theorem C06_pipeline_targets_independent : forall n L scale aF bF aB bB cmi cmi' sur sur' vr order order' w,
+  (forall x zs, cmi w x zs = cmi' w x zs) -> (forall x zs, sur w x zs = sur' w x zs) -> order w = order' w ->
+  filter (fun e => Nat.eqb (e_dst e) w) (discover_model n L scale aF bF aB bB cmi sur vr order)
+  = filter (fun e => Nat.eqb (e_dst e) w) (discover_model n L scale aF bF aB bB cmi' sur' vr order').
+Proof. exact targets_independent. Qed.
+Print Assumptions C06_pipeline_targets_independent.
+
+(* (v) determinism: equal oracles (and visiting orders) give equal graphs *)
+Theorem C06_pipeline_deterministic : forall n L scale aF bF aB bB cmi cmi' sur sur' vr order order',
+  (forall i x zs, cmi i x zs = cmi' i x zs) -> (forall i x zs, sur i x zs = sur' i x zs) ->
+  (forall i, i < n -> order i = order' i) ->
+  discover_model n L scale aF bF aB bB cmi sur vr order = discover_model n L scale aF bF aB bB cmi' sur' vr order'.
+Proof. exact model_deterministic. Qed.
+Print Assumptions C06_pipeline_deterministic.
+
+(* framing: the graph depends on the oracles only through the entries (is-test, target, X, Z) listed by
+   [entries]; a test entry reads the estimator value and the surrogates of its query *)
+Theorem C06_pipeline_frame : forall n L scale aF bF aB bB cmi cmi' sur sur' vr order,
+  (forall b i x zs, In (b, i, x, zs) (entries n L aF bF aB bB cmi sur vr order) ->
+     cmi i x zs = cmi' i x zs /\ (b = true -> sur i x zs = sur' i x zs)) ->
+  discover_model n L scale aF bF aB bB cmi sur vr order = discover_model n L scale aF bF aB bB cmi' sur' vr order.
+Proof. exact model_frame. Qed.
+Print Assumptions C06_pipeline_frame.
+
+(* hence the in-kernel evaluation on the finite tables recorded by the harness speaks about EVERY total oracle that
+   answers as the tables do: once every entry the model reads is present (the `covered` test of the correspondence
+   check), no unrecorded query can have influenced the result *)
+Theorem C06_pipeline_table_evaluation_is_faithful : forall n L scale aF bF aB bB tc ts cmi sur vr order,
+  forallb (covered tc ts) (entries n L aF bF aB bB (tbl_cmi tc) (tbl_sur ts) vr order) = true ->
+  ((forall i x zs v, find_key tc (i, x, sort_labels zs) = Some v -> cmi i x zs = v) /\
+   (forall i x zs v, find_key ts (i, x, sort_labels zs) = Some v -> sur i x zs = v)) ->
+  discover_model n L scale aF bF aB bB cmi sur vr order
+  = discover_model n L scale aF bF aB bB (tbl_cmi tc) (tbl_sur ts) vr order.
+Proof. exact table_evaluation_faithful. Qed.
+Print Assumptions C06_pipeline_table_evaluation_is_faithful.
+
+(* LASSO methods: the solver's support (indices of non-zero coefficients, per target) is data *)
+Theorem C06_pipeline_lasso_graph_wellformed : forall n L scale aB bB cmi sur support nsh,
+  0 < L ->
+  (forall i, i < n -> NoDup (support i) /\ (forall s, In s (support i) -> s < n * L)) ->
+  (forall i x zs, (Z.of_nat (List.length (sur i x zs)) <= nsh)%Z) ->
+  wf_graph n L nsh (discover_model_lasso n L scale aB bB cmi sur support) = true.
+Proof. exact lasso_wf. Qed.
+Print Assumptions C06_pipeline_lasso_graph_wellformed.
+
+Theorem C06_pipeline_lasso_edge_iff_in_support : forall n L scale aB bB cmi sur support u w tau,
+  0 < L -> (forall i, i < n -> forall s, In s (support i) -> s < n * L) ->
+  (exists e, In e (discover_model_lasso n L scale aB bB cmi sur support) /\ e_src e = u /\ e_dst e = w /\ e_lag e = tau)
+  <-> (u < n /\ w < n /\ 1 <= tau <= L /\ In (feature_index L u tau) (support w)).
+Proof. exact lasso_edge_iff. Qed.
+Print Assumptions C06_pipeline_lasso_edge_iff_in_support.
